@@ -94,9 +94,11 @@
 (* Reporting: a step into a state that violates ObsAgree prints            *)
 (*   <<"BAD", case, init, first pending observation kind P-Code, IR>>      *)
 (* a behaviour that leaves the input class prints <<"OUTCLASS", case,      *)
-(* init>>; such states have no successors, so one run reports every        *)
-(* diverging (case, initial state).  With INVARIANT ObsAgree TLC stops     *)
-(* with its counterexample: the concrete execution of both sides.          *)
+(* init, ..>>, a behaviour that was compared to its end <<"END", case,     *)
+(* init, how it ended, control observations matched>>; such states have no *)
+(* successors, so one run reports every diverging (case, initial state).   *)
+(* With INVARIANT ObsAgree TLC stops with its counterexample: the concrete *)
+(* execution of both sides.                                                *)
 (***************************************************************************)
 EXTENDS Integers, Sequences, FiniteSets, TLC
 IR == INSTANCE IR
@@ -242,6 +244,19 @@ ReportInit(C) ==
   /\ pm' = PF!Halt(pm, "reported") /\ im' = PF!Halt(im, "reported")
   /\ UNCHANGED <<cs, ini, kp, ki, cn>>
 
-NextR(C) == Next(C) \/ ReportInit(C)
+\* A behaviour that has been compared to its end - both sides ended, or the side that has to move is out of
+\* fuel - is counted: <<"END", case, init, how the P-Code side ended | "fuel", control observations matched>>
+Exhausted == (PF!Running(pm) \/ IR!Running(im)) /\ (IF Turn = "p" THEN kp ELSE ki) >= Fuel
+Finish(C) ==
+  /\ ~Reported(pm)
+  /\ ((kp + ki > 0) \/ InitOK(C[cs])) = TRUE
+  /\ ObsAgreeOf(C[cs], pm, im) = TRUE
+  /\ PF!IsOutClass(pm) = FALSE
+  /\ ((~PF!Running(pm) /\ ~IR!Running(im)) \/ Exhausted) = TRUE
+  /\ PrintT(<<"END", cs, ini, IF Exhausted THEN "fuel" ELSE pm.pc.t, cn>>)
+  /\ pm' = PF!Halt(pm, "reported") /\ im' = PF!Halt(im, "reported")
+  /\ UNCHANGED <<cs, ini, kp, ki, cn>>
+
+NextR(C) == Next(C) \/ ReportInit(C) \/ Finish(C)
 Spec(C) == Init(C) /\ [][NextR(C)]_vars
 =============================================================================
